@@ -46,7 +46,13 @@ ASSUMPTIONS = ['input strings are Latin-1',
                'normal form is a fixed point), not for arbitrary accepted text',
                'script-level theorems (comments, blank lines, statement independence, permutation) are about parse_model itself, for all scripts '
                'whose blocks end between statements (decidable premises, instances in Props/C14.v)',
-               '"meaning of the generated code" = ast.dump(ast.parse(code)) (CPython)',
+               '"meaning of the generated code" = ast.dump(ast.parse(code)) (CPython); for layouts that open or close a gap (`Y=X` / `Y = X`) the '
+               'theorem C14_gaps_same_tokens gives the same terms / symbols and texts equal up to blank tokens, the step to "same Python code" is this oracle',
+               'no statement-level theorem (K_parse_layout + oracle only) for: blanks between a function name and "(", comments / blank lines on a '
+               'non-final continuation line, line separators other than \\n inside round brackets, tuple targets, any "#" inside the statement; '
+               'script-level theorems (g)/(h) are for check_syntax=False',
+               'K compares every Symbol field and the exception class with the model (stricter than the property: a harmless change of an exception '
+               'class or of the symbol order shows up as a K disagreement, not as an oracle violation)',
                'the oracle compares parse(script) with a reference merge of the statement parses written from the documented rules; the '
                'theorems are parse = merge(map parse_equation statements) and the order-independence of that merge (C14_statements_permute)']
 EXHAUSTIVE = {'quick': False, 'thorough': False}
@@ -582,7 +588,7 @@ def oracle(case, obs):
     if 'var' in obs:
         var = obs['var']
         if 'exc' in base or 'exc' in var:
-            if base.get('exc') != var.get('exc'):
+            if ('exc' in base) != ('exc' in var):          # accepted / rejected; which exception is not part of the property
                 add('layout-outcome', 'base layout: %s, transformed layout: %s' % (base.get('exc', 'accepted'), var.get('exc', 'accepted')))
         else:
             fb, fv = _fields(base), _fields(var)
